@@ -30,11 +30,15 @@ func ScalarFromTape(g kyber.Group, t *core.Tape, label string) kyber.Scalar {
 	return g.Scalar().SetBytes(t.Bytes(label, 64))
 }
 
+// KeyPairs draws n key pairs. Every key mixes a per-tape counter into the
+// drawn value, so that keys stay pairwise distinct even when a minimised
+// tape has been zeroed (two parties sharing a key would be a harness artefact).
 func KeyPairs(g kyber.Group, t *core.Tape, label string, n int) ([]kyber.Scalar, []kyber.Point) {
 	privs := make([]kyber.Scalar, n)
 	pubs := make([]kyber.Point, n)
 	for i := 0; i < n; i++ {
-		privs[i] = ScalarFromTape(g, t, label)
+		d := t.Draw(label, 1<<62)
+		privs[i] = g.Scalar().SetBytes(core.ExpandBytes(d+core.SplitMix(t.NextCounter()), 64))
 		if privs[i].Equal(g.Scalar().Zero()) {
 			privs[i] = g.Scalar().One()
 		}
